@@ -52,6 +52,11 @@ def run_property(prop: str, tier: str, seed: int, evidence_dir=None, quiet=False
         rep.floor("functions scanned for memoising decorators", n, 3)
         from .rules.memo import check_cache_keys
         check_cache_keys(idx, rep, files)
+        if prop in ("C03", "C12", "C14", "C16"):
+            # properties about operators as values (arithmetic leaves operands alone, stored operators keep their spectrum): sharing a term
+            # dictionary between two operators breaks them; for the format translators (C17) sharing is outside what the property states
+            from .rules.sharing import check_terms_copied
+            check_terms_copied(idx, rep, files)
         from .rules.elementwise import check_elementwise
         check_elementwise(idx, rep, files)
         from .rules.protocols import check_protocols
